@@ -1079,6 +1079,6 @@ func init() {
 		Rule:  "degenerate and nearly degenerate loops of 3…10 vertices inside a cap (all chords < 170°): exactly coplanar triangles and n-gons, triangles of all the families above, thin lenses about an arc of 1e-6…170° with half-width 0 or 1e-18…1e-3 of the length; validity decided with exact predicates (invalid ones discarded, about half). Truth: orientation from the exact-sign turning-angle oracle, area 0/4π accordingly (fan oracle for thin loops), exact half-sphere test for probes of triangles, probes ≥ 0.02 rad from every edge for thin n-gons. Area, TurningAngle, IsNormalized, Area(reversed) and ContainsPoint must all agree with it. Non-trivial: thin (Σ|fan areas| < 1e-6).",
 		Quick: 40000, Thorough: 1500000}, genSliver, checkSliver)
 	ev.Define("polygon_sums", ev.Options{
-		Rule:  "polygons of 1…4 disjoint systems of 1…4 concentric rings (nesting depth known by construction, 8…40/400 vertices per ring, radius 1e-6…0.5), loops handed over in a drawn order; a quarter of the systems is instead a shell of 4…8 long edges with a triangular hole one edge of which lies along a shell edge, strictly inside by the exact orientation test but within rounding of it (the two bounding rectangles then differ by rounding only). Area and Centroid against the signed sums of the per-ring oracles; bit-equal to the signed sums over Loops(); PolygonFromOrientedLoops with clockwise holes; Invert() gives 4π−area and the negated centroid. Non-trivial: at least one hole and more than one system, or a hole along a shell edge.",
+		Rule:  "polygons of 1…4 disjoint systems of 1…4 concentric rings (nesting depth known by construction, 8…40/400 vertices per ring, radius 1e-6…0.5), loops handed over in a drawn order; a quarter of the systems is instead a shell of 4…8 long edges with a triangular hole one edge of which lies along a shell edge, strictly inside by the exact orientation test but within rounding of it (the two bounding rectangles then differ by rounding only), or a shell of 5…16 vertices with a triangular hole that shares exactly one vertex with it (shell vertex 0 in a third of the cases; the shared vertex is the hole's vertex 0, 1 or 2). Area and Centroid against the signed sums of the per-ring oracles; bit-equal to the signed sums over Loops(); PolygonFromOrientedLoops with clockwise holes; Invert() gives 4π−area and the negated centroid. Non-trivial: at least one hole and more than one system, or a hole along a shell edge.",
 		Quick: 6000, Thorough: 60000}, genPolygon, checkPolygon)
 }
